@@ -438,7 +438,6 @@ func checkC19(c *Ctx) {
 	}
 }
 
-
 // c19BigFiles: files with more symbols than the workspace search keeps per file (200): an exact-name query must still find
 // its declaration, wherever in the file it stands.
 func c19BigFiles(c *Ctx, p *pool.Pool) {
